@@ -10,6 +10,52 @@ mod synth;
 
 use std::env;
 
+/// Counts live and peak heap bytes of the whole process (C05: memory proportional to the input).
+pub mod memtrack {
+    use std::alloc::{GlobalAlloc, Layout, System};
+    use std::sync::atomic::{AtomicUsize, Ordering};
+    pub static CUR: AtomicUsize = AtomicUsize::new(0);
+    pub static PEAK: AtomicUsize = AtomicUsize::new(0);
+    pub struct Counting;
+    unsafe impl GlobalAlloc for Counting {
+        unsafe fn alloc(&self, l: Layout) -> *mut u8 {
+            let p = System.alloc(l);
+            if !p.is_null() {
+                let c = CUR.fetch_add(l.size(), Ordering::Relaxed) + l.size();
+                PEAK.fetch_max(c, Ordering::Relaxed);
+            }
+            p
+        }
+        unsafe fn dealloc(&self, p: *mut u8, l: Layout) {
+            System.dealloc(p, l);
+            CUR.fetch_sub(l.size(), Ordering::Relaxed);
+        }
+        unsafe fn realloc(&self, p: *mut u8, l: Layout, new_size: usize) -> *mut u8 {
+            let q = System.realloc(p, l, new_size);
+            if !q.is_null() {
+                if new_size >= l.size() {
+                    let c = CUR.fetch_add(new_size - l.size(), Ordering::Relaxed) + (new_size - l.size());
+                    PEAK.fetch_max(c, Ordering::Relaxed);
+                } else {
+                    CUR.fetch_sub(l.size() - new_size, Ordering::Relaxed);
+                }
+            }
+            q
+        }
+    }
+    /// live bytes now; also resets the peak to that value
+    pub fn mark() -> usize {
+        let c = CUR.load(Ordering::Relaxed);
+        PEAK.store(c, Ordering::Relaxed);
+        c
+    }
+    pub fn peak() -> usize {
+        PEAK.load(Ordering::Relaxed)
+    }
+}
+#[global_allocator]
+static ALLOC: memtrack::Counting = memtrack::Counting;
+
 fn main() {
     // panics are caught and reported as results; keep stderr quiet
     if env::var("CFBH_SHOW_PANICS").is_err() {
